@@ -512,7 +512,8 @@ def specStep (s : Spec) (line : String) : Spec × String :=
         let r := specCore { s with live := s.liveB, liveB := s.live } (inner ++ "\t" ++ obs)
         ({ r.1 with live := r.1.liveB, liveB := r.1.live },
           if r.2.startsWith "VIOLATION" then r.2 ++ " (addressed to the second front-end " ++ s.bname ++ ")" else r.2)
-    | _ => specCore s line
+    | none => (s, "ok")
+    | some none => specCore s line
   | _ => (s, "bad-line")
 
 end Cell2v.Driver.C16
